@@ -706,6 +706,13 @@ func execPathsOf(in In, em *Emitter) {
 	o := J{}
 	abn := guard(func() {
 		ps := bmtree.PathsOf(keys, from, h, dedup)
+		if len(keys) == 0 { // no keys: nil and an empty list with spare capacity behave alike
+			ps2 := bmtree.PathsOf(nil, from, h, dedup)
+			ps3 := bmtree.PathsOf(make([]string, 0, 4), from, h, dedup)
+			if len(ps2) != len(ps) || len(ps3) != len(ps) {
+				panic("PathsOf: nil and empty key lists give different results")
+			}
+		}
 		l := make([][]int64, len(ps))
 		for i, p := range ps {
 			l[i] = wordOnes(p)
@@ -819,6 +826,52 @@ func genC11(g *Gen) {
 			keys[0] = ff
 		}
 		g.Case("pathsof", J{"keys": strsJ(keys), "from": from, "h": h, "dedup": c%4 != 3})
+	}
+	// no keys at all (nil after the JSON round trip), one empty key: every height incl. 0, with and without dedup
+	for h := 0; h <= 32; h++ {
+		for _, from := range []int{0, 3, 8} {
+			for _, dedup := range []bool{true, false} {
+				if h > 2 && h < 30 && (h+from)%5 != 0 {
+					continue
+				}
+				g.Case("pathsof", J{"keys": [][]int64{}, "from": from, "h": h, "dedup": dedup})
+				g.Case("pathsof", J{"keys": [][]int64{{}}, "from": from, "h": h, "dedup": dedup})
+				g.Case("pathsof", J{"keys": [][]int64{{}, {}}, "from": from, "h": h, "dedup": dedup})
+			}
+		}
+	}
+	// neighbouring keys that agree on every byte of the window except its last one (a path of height h starting at
+	// bit from touches 1..5 bytes): they differ in one bit of the last byte touched, inside or outside the window,
+	// or one of them ends right before it; every from%8 and the heights around 32 - from%8 and 24 - from%8
+	for c := 0; c < g.N(120, 3000); c++ {
+		fb := c % 8
+		from := 8*r.Intn(3) + fb
+		h := []int{32, 31, 26, 25, 33 - fb, 32 - fb, 25 - fb, 24 - fb, 17 - fb, 9 - fb}[(c/8)%10]
+		if h < 1 || h > 32 {
+			h = 32
+		}
+		last := (from + h - 1) / 8 // index of the last byte the window touches
+		common := randBytes(r, last)
+		var keys []string
+		for i := 2 + r.Intn(5); i > 0; i-- {
+			k := append([]byte{}, common...)
+			switch r.Intn(6) {
+			case 0: // ends right before the last byte
+			case 1:
+				k = append(k, 0)
+			default:
+				b := byte(r.Intn(256))
+				if r.Intn(2) == 0 && len(keys) > 0 && len(keys[len(keys)-1]) > last {
+					b = keys[len(keys)-1][last] ^ (1 << uint(r.Intn(8))) // one bit away from its predecessor
+				}
+				k = append(k, b)
+				if r.Intn(3) == 0 {
+					k = append(k, randBytes(r, 1+r.Intn(2))...)
+				}
+			}
+			keys = append(keys, string(k))
+		}
+		g.Case("pathsof", J{"keys": strsJ(keys), "from": from, "h": h, "dedup": c%3 != 2})
 	}
 	for c := 0; c < g.N(400, 15000); c++ {
 		nk := 1 + r.Intn(8)
